@@ -5,7 +5,10 @@
 (* violated constraint. Profiles: "ledger" (what a node accepts) and "write" (what    *)
 (* the library is documented to emit: shortest definite heads everywhere except       *)
 (* non-empty Plutus lists (indefinite) and bounded bytes over 64 (chunked); tag 258    *)
-(* on every set; no duplicates in sets).                                               *)
+(* on every set; no duplicates in sets) and "fresh" (= write, plus: the form in which a *)
+(* value built through the typed API or read from JSON is written, i.e. none of the    *)
+(* encoding details that only a decoded value retains, and none of the content the      *)
+(* JSON form is known not to carry; the reason is the last path element).               *)
 EXTENDS Integers, Sequences, FiniteSets, CBOR
 N(k,a,b,c) == [k |-> k, a |-> a, b |-> b, c |-> c]
 Ref(n) == N("ref", n, 0, 0)
@@ -35,6 +38,12 @@ TableS(kt,vt,mn) == N("tables",kt,vt,mn)   \* table whose keys must be strictly 
 IntMap(vt) == N("intmap",vt,0,0)       \* {* uint => vt}
 ArrV(ts) == N("arrv",ts,0,0)           \* array group choice selected by its first element (uint): ts[v+1] is the schema of variant v
 AnyUInt == N("uint",0,0,0)
+NF(t, why) == N("nf",t,why,0)          \* t, but not what a freshly built value is written as (profile "fresh" rejects with reason why)
+MdInt == N("mdint",0,0,0)              \* metadatum integer; fresh: >= -2^63 (the JSON forms use i64 / u64)
+BigTag(n) == N("bigtag",n,0,0)         \* #6.2 / #6.3 (bounded bytes); fresh: only for magnitudes that need more than 8 bytes, no leading zero
+Constr102(t) == N("constr102",t,0,0)   \* #6.102([uint, plist]); fresh: only for alternatives > 127
+OutMap(t) == N("outmap",t,0,0)         \* map-form output; fresh: only when it carries an inline datum or a script reference
+Strip0(b) == LET RECURSIVE G(_) G(i) == IF i > Len(b) THEN <<>> ELSE IF b[i] = 0 THEN G(i+1) ELSE SubSeq(b, i, Len(b)) IN G(1)
 F(t) == [t |-> t, opt |-> FALSE]
 O(t) == [t |-> t, opt |-> TRUE]
 K(key,t) == [key |-> key, t |-> t, req |-> TRUE]
@@ -69,8 +78,8 @@ Conf(S, s, it, P, path) ==
     [] s.k = "set" -> LET inner == IF it.mt = 6 THEN it.kids[1] ELSE it
                           tagged == it.mt = 6 /\ Small(it.arg) = 258 IN
                       IF it.mt = 6 /\ ~tagged THEN Bad(path, "set-tag")
-                      ELSE IF P = "write" /\ ~tagged THEN Bad(path, "set-untagged")
-                      ELSE IF P = "write" /\ ~ShortestHead(it) THEN Bad(path, "set-tag-head")
+                      ELSE IF P # "ledger" /\ ~tagged THEN Bad(path, "set-untagged")
+                      ELSE IF P # "ledger" /\ ~ShortestHead(it) THEN Bad(path, "set-tag-head")
                       ELSE LET r == Conf(S, List(s.a, s.b), inner, P, Append(path, "set")) IN
                            IF r # OK THEN r
                            ELSE IF \E x, y \in 1..Len(inner.kids) : x < y /\ SameData(inner.kids[x], inner.kids[y])
@@ -78,8 +87,8 @@ Conf(S, s, it, P, path) ==
     [] s.k = "setp" -> LET inner == IF it.mt = 6 THEN it.kids[1] ELSE it
                            tagged == it.mt = 6 /\ Small(it.arg) = 258 IN
                        IF it.mt = 6 /\ ~tagged THEN Bad(path, "set-tag")
-                       ELSE IF P = "write" /\ ~tagged THEN Bad(path, "set-untagged")
-                       ELSE IF P = "write" /\ ~ShortestHead(it) THEN Bad(path, "set-tag-head")
+                       ELSE IF P # "ledger" /\ ~tagged THEN Bad(path, "set-untagged")
+                       ELSE IF P # "ledger" /\ ~ShortestHead(it) THEN Bad(path, "set-tag-head")
                        ELSE IF inner.mt # 4 \/ Len(inner.kids) < s.b THEN Bad(path, "set-min")
                        ELSE LET r == Conf(S, PList(s.a), inner, P, Append(path, "set")) IN
                             IF r # OK THEN r
@@ -92,29 +101,46 @@ Conf(S, s, it, P, path) ==
     [] s.k = "tagrange" -> IF it.mt = 6 /\ Small(it.arg) >= s.a /\ Small(it.arg) <= s.b /\ Short(it,P) THEN Conf(S, s.c, it.kids[1], P, Append(path, "tag")) ELSE Bad(path, "tagrange")
     [] s.k = "uintmax" -> IF it.mt = 0 /\ Short(it,P) /\ Small(it.arg) >= 0 /\ Small(it.arg) <= s.a THEN OK ELSE Bad(path, "uintmax")
     [] s.k = "plist" -> IF it.mt # 4 THEN Bad(path, "plist-type")
-                        ELSE IF P = "write" /\ ((Len(it.kids) = 0 /\ it.indef) \/ (Len(it.kids) > 0 /\ ~it.indef)) THEN Bad(path, "plist-form")
-                        ELSE IF P = "write" /\ ~it.indef /\ ~ShortestHead(it) THEN Bad(path, "plist-head")
+                        ELSE IF P # "ledger" /\ ((Len(it.kids) = 0 /\ it.indef) \/ (Len(it.kids) > 0 /\ ~it.indef)) THEN Bad(path, "plist-form")
+                        ELSE IF P # "ledger" /\ ~it.indef /\ ~ShortestHead(it) THEN Bad(path, "plist-head")
                         ELSE LET RECURSIVE G(_) G(j) == IF j > Len(it.kids) THEN OK ELSE LET r == Conf(S, s.a, it.kids[j], P, Append(path, j)) IN IF r # OK THEN r ELSE G(j+1) IN G(1)
     [] s.k = "bbytes" -> IF it.mt # 2 THEN Bad(path, "bbytes-type")
                          ELSE IF \E j \in 1..Len(it.chunks) : it.chunks[j] > 64 THEN Bad(path, "bbytes-chunk-over-64")
                          ELSE IF ~it.indef /\ Len(it.str) > 64 THEN Bad(path, "bbytes-over-64-definite")
-                         ELSE IF P = "write" /\ ((it.indef /\ Len(it.str) <= 64) \/ (~it.indef /\ ~ShortestHead(it))) THEN Bad(path, "bbytes-form")
+                         ELSE IF P # "ledger" /\ ((it.indef /\ Len(it.str) <= 64) \/ (~it.indef /\ ~ShortestHead(it))) THEN Bad(path, "bbytes-form")
                          ELSE OK
     [] s.k = "cbor" -> IF it.mt # 6 \/ Small(it.arg) # 24 \/ ~Short(it,P) \/ it.kids[1].mt # 2 THEN Bad(path, "cbor-wrapper")
-                       ELSE IF P = "write" /\ (it.kids[1].indef \/ ~ShortestHead(it.kids[1])) THEN Bad(path, "cbor-wrapper-head")
+                       ELSE IF P # "ledger" /\ (it.kids[1].indef \/ ~ShortestHead(it.kids[1])) THEN Bad(path, "cbor-wrapper-head")
                        ELSE LET inner == Parse(it.kids[1].str) IN IF IsErr(inner) THEN Bad(path, "cbor-inner-malformed") ELSE Conf(S, s.a, inner, P, Append(path, "inner"))
     [] s.k = "tables" -> IF it.mt # 5 \/ ~(P = "ledger" \/ (~it.indef /\ ShortestHead(it))) THEN Bad(path, "table-head")
                          ELSE IF Len(it.kids) \div 2 < s.c THEN Bad(path, "table-min")
-                         ELSE IF P = "write" /\ \E j \in 1..((Len(it.kids) \div 2) - 1) :
+                         ELSE IF P # "ledger" /\ \E j \in 1..((Len(it.kids) \div 2) - 1) :
                                    ~(Len(it.kids[2*j-1].str) < Len(it.kids[2*j+1].str) \/ (Len(it.kids[2*j-1].str) = Len(it.kids[2*j+1].str) /\ StrLt(it.kids[2*j-1].str, it.kids[2*j+1].str)))
                               THEN Bad(path, "table-keys-not-canonical")
                          ELSE ConfTable(S, s, it, P, path, 1)
     [] s.k = "intmap" -> IF it.mt # 5 \/ ~(P = "ledger" \/ (~it.indef /\ ShortestHead(it))) THEN Bad(path, "intmap-head")
+                         ELSE IF P = "fresh" /\ \E j \in 1..((Len(it.kids) \div 2) - 1) : ~Lt(ArgN(it.kids[2*j-1]), ArgN(it.kids[2*j+1])) THEN Bad(path, "map-not-ascending")
                          ELSE ConfTable(S, N("table", UInt, s.a, 0), it, P, path, 1)
     [] s.k = "arrv" -> IF it.mt # 4 \/ Len(it.kids) = 0 \/ it.kids[1].mt # 0 \/ ~(P = "ledger" \/ (~it.indef /\ ShortestHead(it))) THEN Bad(path, "variant-head")
                        ELSE LET v == Small(it.kids[1].arg) IN
                             IF v < 0 \/ v >= Len(s.a) THEN Bad(path, "variant-unknown")
                             ELSE Conf(S, s.a[v + 1], it, P, Append(path, v))
+    [] s.k = "nf" -> IF P = "fresh" THEN Bad(path, s.b) ELSE Conf(S, s.a, it, P, path)
+    [] s.k = "mdint" -> IF ~(it.mt \in {0,1} /\ Short(it,P)) THEN Bad(path, "int")
+                        ELSE IF P = "fresh" /\ it.mt = 1 /\ Len(ArgN(it)) = 8 /\ ArgN(it)[8] >= 128 THEN Bad(path, "md-int-below-i64") ELSE OK
+    [] s.k = "bigtag" -> IF ~(it.mt = 6 /\ Small(it.arg) = s.a /\ Short(it,P)) THEN Bad(path, "tag")
+                         ELSE LET r == Conf(S, BBytes, it.kids[1], P, Append(path, "tag")) IN
+                              IF r # OK THEN r
+                              ELSE IF P = "fresh" /\ (Len(Strip0(it.kids[1].str)) <= 8 \/ it.kids[1].str[1] = 0) THEN Bad(path, "bignum-form") ELSE OK
+    [] s.k = "constr102" -> IF ~(it.mt = 6 /\ Small(it.arg) = 102 /\ Short(it,P)) THEN Bad(path, "tag")
+                            ELSE LET r == Conf(S, Arr(<<F(UInt), F(s.a)>>), it.kids[1], P, Append(path, "tag")) IN
+                                 IF r # OK THEN r
+                                 ELSE IF P = "fresh" /\ Len(ArgN(it.kids[1].kids[1])) <= 1 /\ Small(it.kids[1].kids[1].arg) <= 127 THEN Bad(path, "constr-general-form") ELSE OK
+    [] s.k = "outmap" -> LET r == Conf(S, s.a, it, P, path) IN
+                         IF r # OK \/ P # "fresh" THEN r
+                         ELSE IF \E e \in 1..(Len(it.kids) \div 2) : \/ Small(it.kids[2*e-1].arg) = 3
+                                                                     \/ (Small(it.kids[2*e-1].arg) = 2 /\ Small(it.kids[2*e].kids[1].arg) = 1)
+                              THEN OK ELSE Bad(path, "output-map-form")
     [] OTHER -> Bad(path, "unknown-node")
 ConfSeq(S, fs, it, P, path, j) == IF j > Len(it.kids) THEN OK ELSE
     LET r == Conf(S, fs[j].t, it.kids[j], P, Append(path, j)) IN IF r # OK THEN r ELSE ConfSeq(S, fs, it, P, path, j+1)
@@ -136,6 +162,8 @@ ConfTable(S, s, it, P, path, j) ==
     LET rk == Conf(S, s.a, it.kids[j], P, Append(path, "key")) IN IF rk # OK THEN rk ELSE
     LET rv == Conf(S, s.b, it.kids[j+1], P, Append(path, "val")) IN IF rv # OK THEN rv ELSE ConfTable(S, s, it, P, path, j+2)
 FirstAlt(S, ts, it, P, path, j) == IF j > Len(ts) THEN Bad(path, "no-alt") ELSE
+    \* fresh profile: the reason is wanted, so descend into the alternative the item matches in the write profile
+    IF P = "fresh" THEN (IF Conf(S, ts[j], it, "write", path) = OK THEN Conf(S, ts[j], it, P, Append(path, j)) ELSE FirstAlt(S, ts, it, P, path, j+1)) ELSE
     LET r == Conf(S, ts[j], it, P, Append(path, j)) IN IF r = OK THEN OK ELSE
     IF j = Len(ts) THEN (IF Len(ts) = 1 THEN r ELSE Bad(path, "no-alt")) ELSE FirstAlt(S, ts, it, P, path, j+1)
 Conforms(S, name, it, P) == Conf(S, S[name], it, P, <<name>>)
